@@ -701,7 +701,7 @@ def runOp (sc : Scen) (j : Json) : P Json := do
         if act == "exception" then pure (Json.mkObj [("classError", "TypeError")])
         else pure (Json.mkObj [("class", classJson c), ("hashAction", .str act)])
       | none => throw "no decls"
-  | "construct" | "unchecked" | "dictview" | "copy" | "replace" | "setattr" | "delattr" | "fromdict" =>
+  | "construct" | "unchecked" | "dictview" | "copy" | "replace" | "setattr" | "delattr" | "fromdict" | "copyset" =>
     let key ← jstr (← jfield j "cls")
     match sc.env.classes.find? (·.key == key) with
     | none => pure (Json.mkObj [("driverError", .str ("unknown class " ++ key))])
@@ -732,6 +732,22 @@ def runOp (sc : Scen) (j : Json) : P Json := do
         match op with
         | "dictview" =>
           pure (exceptJson (dictView info o (← jbool (jfieldD j "set_only" (.bool false))) (optStrJ (jfieldD j "rename" .null))))
+        | "copyset" =>
+          -- copy / deepcopy / replace() / from_dict_unchecked(set_fields=the original's), then an assignment on ONE of the
+          -- two objects: values are independent, so the other one (and the caller's set) is what it was
+          let how ← jstr (← jfield j "how")
+          let cset : List String := match o with | .obj _ _ st => st | _ => []
+          let made : Result := if how == "replace" then replaceM E info conv o [] else copyM E info o
+          match made with
+          | .value c =>
+            let onOrig := (← jstr (← jfield j "mutate")) == "orig"
+            let r := setattrM (← jbool (jfieldD j "frozen" (.bool true))) info (if onOrig then o else c) (← jstr (← jfield j "name")) (← parseVal (← jfield j "val"))
+            let (o', c', st) := match r with
+              | .ok x => if onOrig then (x, c, "ok") else (o, x, "ok")
+              | .error e => (o, c, excName e.cls)
+            pure (Json.mkObj [("set", .str st), ("orig", valJson o'), ("copy", valJson c'),
+                              ("caller_set", .arr ((cset.toArray.qsort (· < ·)).map Json.str))])
+          | r => pure (resultJson r)
         | "copy" => pure (resultJson (copyM E info o))
         | "replace" => pure (resultJson (replaceM E info conv o kwargs))
         | "setattr" =>
